@@ -229,6 +229,20 @@ def run(R, env):
                     small = const_int(ix) == 0 or (ix[0] == "agg" and ix[1].endswith("RangeFrom") and const_int(shared.agg_field(ix, "start")) in (0, 1))
                     if bi not in w.T.reach and small:
                         how = "I2"
+                    if how is None and b.kind == "closure" and ix[0] == "agg" and ix[1].endswith("RangeTo"):
+                        # `xs[..i]` inside `xs.iter().enumerate().map(|(i, x)| ..)`: i < len(xs)
+                        from engine.analysis import inline_walk as _iw4
+                        pb = prog.body(k.split("::{closure")[0])
+                        for c2, p2 in (_iw4(prog, Ctx(pb), 1) if pb is not None else []):
+                            if c2.body.key != k:
+                                continue
+                            coll2 = c2.T.operand(t["args"][0], bi, idx)
+                            ix2 = c2.T.operand(t["args"][1], bi, idx)
+                            end = shared.agg_field(ix2, "end") if ix2[0] == "agg" else None
+                            if end is not None and end[0] == "field" and end[2] == "0" and end[1][0] == "payload":
+                                nx = shared.unwrap_payload(end[1])
+                                if nx[0] == "call" and nx[1].endswith("Iterator::next") and nx[2] and nx[2][0][0] == "call" and nx[2][0][1].endswith("Iterator::enumerate") and norm(nx[2][0][2][0]) == norm(coll2):
+                                    how = "I7(enumerate index)"
                 R.ob("C16.R2", "index:%s" % ("full-range" if how and how.startswith("total") else fmt(ix)[:40]), how is not None, "indexing %s with %s is not behind an emptiness rejection of the same collection" % (fmt(coll)[:100], fmt(ix)[:60]), loc=b.loc(bi), fn=k)
                 continue
             if nm in RATIO:
